@@ -15,6 +15,10 @@ def InvIn (s : RState) : Prop :=
 def InvOut (s : RState) : Prop :=
   ∀ p ∈ s.conns, p.2.opened = true → p.2.toKernel ++ p.2.outbound = p.2.accepted
 
+/-- between rounds an opened connection is registered and the read buffer has been handed over -/
+def Quiet (s : RState) : Prop :=
+  ∀ p ∈ s.conns, p.2.opened = true → p.2.registered = true ∧ p.2.buffer = []
+
 /-- C04: the callback word of a connection -/
 def WordOK (w : List String) : Prop :=
   w = [] ∨ (∃ k, w = "open" :: List.replicate k "traffic") ∨ (∃ k, w = "open" :: List.replicate k "traffic" ++ ["close"])
